@@ -153,20 +153,20 @@ Proof.
 Qed.
 
 (* ---------- the hypotheses of join_usable are satisfiable ---------- *)
-Definition join_conformant (cfg : config) (r : request) (d : device) (dn : N) (netid devaddr : list N)
+Definition join_conformant (cfg : config) (r : request) (d : device) (dn : N) (netid rid devaddr : list N)
     (dls rxd : N) (cf : list N) (jn : N) (nskek aslabel askek : list N) : Prop :=
   wf_device d /\ dn < 65536 /\ jn < 16777216 /\
   length netid = 3%nat /\ bytes netid /\ length devaddr = 4%nat /\ bytes devaddr /\
   dls < 256 /\ rxd < 16 /\ bytes cf /\ cf_canonical cf /\
   r_mtype r = s_JoinReq /\ base_decode r = Ok tt /\
   typed_decode r = Ok (mkTReq (join_request_frame d dn) (d_deveui d) devaddr (dec_dlsettings dls) (Z.of_N rxd) cf) /\
-  unmarshal_text 3 (r_sender r) = Ok netid /\ unmarshal_text 8 (r_receiver r) = Ok (d_joineui d) /\
+  unmarshal_text 3 (r_sender r) = Ok netid /\ unmarshal_text 8 (r_receiver r) = Ok rid /\
   get_keys cfg (d_deveui d) = Found (mkDevKeys (d_nwkkey d) (d_appkey d) (Z.of_N jn)) /\
   get_kek cfg (r_sender r) = Ok nskek /\ kek_supported nskek /\
   get_aslabel cfg (d_deveui d) = Ok aslabel /\ get_kek cfg aslabel = Ok askek /\ kek_supported askek.
 
-Theorem join_usable_conformant cfg r d dn netid devaddr dls rxd cf jn nskek aslabel askek :
-  join_conformant cfg r d dn netid devaddr dls rxd cf jn nskek aslabel askek ->
+Theorem join_usable_conformant cfg r d dn netid rid devaddr dls rxd cf jn nskek aslabel askek :
+  join_conformant cfg r d dn netid rid devaddr dls rxd cf jn nskek aslabel askek ->
   exists phy keys s,
     handle cfg (Body r) = AMsg 200 MJoinAns (r_receiver r) (r_sender r) (r_txid r) RSuccess phy None keys None /\
     device_accept d 255 dn phy = Some s /\
@@ -179,7 +179,7 @@ Proof.
 Qed.
 
 Lemma w_join_conformant :
-  join_conformant w_cfg_kek (w_join 149) w_dev 258 w_netid w_devaddr 149 1 w_cf 65536 w_kek s_as w_kek.
+  join_conformant w_cfg_kek (w_join 149) w_dev 258 w_netid (d_joineui w_dev) w_devaddr 149 1 w_cf 65536 w_kek s_as w_kek.
 Proof.
   unfold join_conformant.
   split; [exact w_dev_wf|]. split; [lia|]. split; [lia|]. split; [reflexivity|]. split; [apply w_bytes; reflexivity|].
@@ -199,14 +199,14 @@ Example w_wrong_mic :
 Proof. vm_compute. reflexivity. Qed.
 
 (* ---------- lemmas behind the remaining statements of props/C16.v ---------- *)
-Lemma join_conformant_is cfg r d dn netid devaddr dls rxd cf jn nskek aslabel askek :
-  join_conformant cfg r d dn netid devaddr dls rxd cf jn nskek aslabel askek <->
+Lemma join_conformant_is cfg r d dn netid rid devaddr dls rxd cf jn nskek aslabel askek :
+  join_conformant cfg r d dn netid rid devaddr dls rxd cf jn nskek aslabel askek <->
   (wf_device d /\ dn < 65536 /\ jn < 16777216 /\
    length netid = 3%nat /\ bytes netid /\ length devaddr = 4%nat /\ bytes devaddr /\
    dls < 256 /\ rxd < 16 /\ bytes cf /\ cf_canonical cf /\
    r_mtype r = s_JoinReq /\ base_decode r = Ok tt /\
    typed_decode r = Ok (mkTReq (join_request_frame d dn) (d_deveui d) devaddr (dec_dlsettings dls) (Z.of_N rxd) cf) /\
-   unmarshal_text 3 (r_sender r) = Ok netid /\ unmarshal_text 8 (r_receiver r) = Ok (d_joineui d) /\
+   unmarshal_text 3 (r_sender r) = Ok netid /\ unmarshal_text 8 (r_receiver r) = Ok rid /\
    get_keys cfg (d_deveui d) = Found (mkDevKeys (d_nwkkey d) (d_appkey d) (Z.of_N jn)) /\
    get_kek cfg (r_sender r) = Ok nskek /\ kek_supported nskek /\
    get_aslabel cfg (d_deveui d) = Ok aslabel /\ get_kek cfg aslabel = Ok askek /\ kek_supported askek).
@@ -234,3 +234,16 @@ Lemma rejoin_frames d rc netid skey :
 Proof.
   intros H. split; [apply rejoin02_frame_of; auto|]. split; [apply rejoin1_frame_of|apply rejoin02_frame_of; auto].
 Qed.
+
+(* ---------- known finding C16-3: rejoin-request answered with OptNeg unset ---------- *)
+(* Success, but the join-accept MIC is cmac(JSIntKey, MHDR | ...): neither the 1.0 form (NwkKey) a device
+   reading OptNeg = 0 checks, nor the 1.1 form (with the JoinReqType | JoinEUI | RJcount prefix) *)
+Definition w_rejoin1_optneg0 : request := w_request s_RejoinReq (rejoin1_frame w_dev 123) 21.
+Definition rejoin_optneg0_rejected : bool :=
+  match handle w_cfg (Body w_rejoin1_optneg0) with
+  | AMsg 200 MRejoinAns _ _ _ RSuccess phy None _ None =>
+    match device_accept w_dev 1 123 phy with None => true | Some _ => false end
+  | _ => false
+  end.
+Lemma rejoin_optneg0_refuted : rejoin_optneg0_rejected = true.
+Proof. vm_compute. reflexivity. Qed.
